@@ -431,6 +431,12 @@ class CallMixin:
             rest = list(args[1:])
             if finfo.cls is not None and finfo.kind in ("method", "property"):
                 bound = rest.pop(0)
+            if isinstance(key, str) and "~" in key:
+                # call("target~tag", ...): apply that VIEW (an additional contract verified against the same body)
+                vc = api.REGISTRY.get(key)
+                if vc is None:
+                    raise Unsupported(f"call() of {key}: no such view contract")
+                return self.apply_contract(vc, finfo, bound, rest, kwargs, lineno)
             return self.call_vfunc(VFunc(finfo, bound_self=bound), rest, kwargs, fr, lineno, force_contract=True)
         raise Unsupported(f"spec primitive {name}")
 
@@ -534,6 +540,11 @@ class CallMixin:
         if is_spec and finfo.kind not in ("lambda", "nested"):
             return self.call_spec_function(finfo, args, kwargs, lineno)
         c = api.REGISTRY.get(finfo.key)
+        tc = getattr(self, "top_contract", None)
+        if tc is not None and tc.opts.get("callee_view") and not force_contract:
+            # the unit under proof belongs to a family of VIEWS (`target~tag` contracts, each verified against the same
+            # body as its own unit): callees that have a view of that family are applied through it
+            c = api.REGISTRY.get(f"{finfo.key}~{tc.opts['callee_view']}", c)
         caller_contract = getattr(fr, "contract", None) if fr is not None else None
         inline_ok = finfo.kind in ("lambda", "nested")
         if caller_contract is not None and not force_contract:
@@ -1191,6 +1202,13 @@ class CallMixin:
             return coerce(v, Int)
         raise Unsupported(f"int({v})")
 
+    def bi_bytes(self, args, kwargs, lineno):
+        """bytes(s, "utf8"): same as s.encode() -- byte strings share the text's representation (flag is_bytes)."""
+        if len(args) == 2 and isinstance(args[0], VStr) and not args[0].is_bytes \
+                and str(concrete_of(args[1])).lower().replace("-", "") == "utf8":
+            return VStr(args[0].t, is_bytes=True)
+        raise Unsupported("bytes() other than bytes(<str>, 'utf8')")
+
     def bi_float(self, args, kwargs, lineno):
         """float(s): floats are not modelled -- the result is an opaque value (nothing but passing it on is supported);
         an invalid literal raises ValueError, and that exceptional edge is followed."""
@@ -1472,6 +1490,10 @@ class CallMixin:
 
     def bi_hasattr(self, args, kwargs, lineno):
         obj, name = args[0], concrete_of(args[1])
+        if isinstance(obj, VOpt) and name is not NOCONST and not hasattr(None, str(name)):
+            # hasattr(None, name) is False for every attribute NoneType does not have
+            inner = self.bi_hasattr([obj.val, args[1]], kwargs, lineno)
+            return VBool(z3.And(z3.Not(obj.isnone), truthy(inner)))
         if isinstance(obj, VRec) and name is not NOCONST:
             if name in obj.fields:
                 return VBool(True)
@@ -1537,6 +1559,8 @@ class CallMixin:
             if name == "values":
                 return VList(None, items=[lift(v) for v in recv.py.values()])
         if isinstance(recv, VConst) and isinstance(recv.py, (set, frozenset)):
+            if name == "copy" and not args:
+                return VConst(frozenset(recv.py))  # constant sets are never mutated in the verified subset
             if name in ("union", "__or__") and all(isinstance(a, VConst) for a in args):
                 return VConst(frozenset(recv.py).union(*[a.py for a in args]))
         if isinstance(recv, (VOpaque, VNode)) or (isinstance(recv, VRec) and not recv.ty.as_dict):
@@ -1809,7 +1833,10 @@ class CallMixin:
             k = args[0]
             default = args[1] if len(args) > 1 else VNone()
             if isinstance(k, VOpt):
-                raise Unsupported("dict.get with optional key")
+                # d.get(None) on a dict with string keys: the key is absent, the default is returned
+                val = z3.Select(d.t, coerce(k.val, Str).t)
+                present = z3.And(z3.Not(k.isnone), val != ValSort.Absent)
+                return self._dyn_merge(present, VAny(val), default)
             k = coerce(k, Str)
             val = z3.Select(d.t, k.t)
             present = val != ValSort.Absent
@@ -1841,8 +1868,20 @@ class CallMixin:
                 self.maybe_raise(ValSort.is_D(args[0].t), "TypeError", lineno)
             d.t = z3.Const(fresh_name("updated"), d.t.sort())
             return VNone()
+        if name == "update" and len(args) == 1 and not kwargs:
+            # d.update(other): other's entries win (lambda k. other[k] if present else d[k]); mutates d in place
+            from .ty import freeze_refs
+            o = args[0]
+            if isinstance(o, VAny):
+                self.safety(ValSort.is_D(o.t), "type(dict) of dynamic value", lineno)
+            b = Dict.pack(o)
+            a = d.t
+            freeze_refs(d)
+            kk = z3.Const(fresh_name("k"), z3.StringSort())
+            d.t = z3.Lambda([kk], z3.If(z3.Select(b, kk) != ValSort.Absent, z3.Select(b, kk), z3.Select(a, kk)))
+            return VNone()
         if name == "update":
-            raise Unsupported("dict.update on symbolic dict")
+            raise Unsupported("dict.update with keyword arguments / several arguments")
         if name == "keys" and not args:
             # the key list of a symbolic dict: an uninterpreted view (nothing is assumed about which keys it contains)
             self.ufs_used.add("dict_keys (key list of a dict: uninterpreted)")
